@@ -635,6 +635,45 @@ def rule_io_and_exits(ctx):
             p = op_place(t["args"][0])
             if p is not None and p["l"] == res_local:
                 unwrapped.append(bi)
+    # read_line appends: the buffer it is given must be empty at every read (created or cleared on every way round the loop),
+    # or one rejected line is glued in front of every later command
+    buf = None
+    if mir.callee_is(rt, "*::read_line") and len(rt["args"]) >= 2:
+        q = op_place(rt["args"][1])
+        for _ in range(5):
+            sd = b.single_def(q["l"]) if q is not None and mir.is_local(q) else None
+            if sd and sd[2].get("k") == "ref":
+                q = sd[2]["p"]
+                if not q["p"]:
+                    buf = q["l"]
+                    break
+                if q["p"] == ["*"]:
+                    q = {"l": q["l"], "p": []}     # a reborrow
+                    continue
+                break
+            if sd and sd[2].get("k") == "use":
+                q = op_place(sd[2]["a"])
+                continue
+            break
+    if buf is not None:
+        fresh = set()
+        for bi, t in b.calls():
+            c = strip_generics(t.get("callee") or "")
+            if mir.is_local(t["dest"]) and t["dest"]["l"] == buf and c.endswith("String::new"):
+                fresh.add(bi)
+            if c.endswith("String::clear") and t.get("args"):
+                a0 = op_place(t["args"][0])
+                sd = b.single_def(a0["l"]) if a0 is not None and mir.is_local(a0) else None
+                if sd and sd[2].get("k") == "ref" and not sd[2]["p"]["p"] and sd[2]["p"]["l"] == buf:
+                    fresh.add(bi)
+        for bi, i, s2 in b.stmts():
+            if mir.is_local(s2["lhs"]) and s2["lhs"]["l"] == buf and s2["rv"].get("k") == "use":
+                fresh.add(bi)   # moved-in fresh value
+        start = rt.get("target")
+        again = start is not None and rb in b.reachable_from(start, removed=fresh, include_start=True)
+        first = rb in b.reachable_from(0, removed=fresh, include_start=True)
+        ctx.check(not again and not first, "%s:line-buffer-empty-at-every-read" % UCI_LOOP, "the String handed to read_line is created or cleared on every path to the read", b.where(rb),
+                  bad_what="read_line can be reached again with what an earlier line left in its buffer (a `continue` that skips the clear): after one rejected line every later command is glued behind it and rejected too, `quit` included")
     ctx.check(not unwrapped, "%s:read-error-handled" % UCI_LOOP, "an I/O error from read_line does not panic", b.where(rb),
               bad_what="read_line(..).unwrap(): an I/O error (e.g. invalid UTF-8 on stdin) panics the main thread")
     # (2) exit edge controlled by the byte count
